@@ -130,6 +130,10 @@ fn in_domain(samples: &[Vec<u8>], labels: &[Vec<(usize, usize)>], m: usize, chec
             let lab = (labels[s][i], fwd);
             match global.get(&c) {
                 Some(l) if *l != lab && check_labels => return false,
+                // indel sets: the same (k-1)-mer may start at slightly different labels (an event
+                // whose placement is ambiguous), but not at different loci or on different strands -
+                // that would be a repeat across the genome set
+                Some(l) if *l != lab && (l.1 != lab.1 || (l.0).0.abs_diff((lab.0).0) > 12) => return false,
                 Some(_) => {}
                 None => {
                     global.insert(c, lab);
@@ -138,6 +142,26 @@ fn in_domain(samples: &[Vec<u8>], labels: &[Vec<(usize, usize)>], m: usize, chec
         }
     }
     true
+}
+
+/// low-complexity stretch in seq[lo..hi]: a homopolymer run of >= 5, or a period-2/3/4 tandem repeat
+/// covering >= 6/8/10 bases
+fn low_complexity(seq: &[u8], lo: usize, hi: usize) -> bool {
+    let hi = hi.min(seq.len());
+    for (p, need) in [(1usize, 5usize), (2, 6), (3, 8), (4, 10)] {
+        let mut run = 0;
+        for i in lo + p..hi {
+            if seq[i] == seq[i - p] {
+                run += 1;
+                if run + p >= need && (p == 1 || seq[i - p + 1..=i].iter().any(|b| *b != seq[i])) {
+                    return true;
+                }
+            } else {
+                run = 0;
+            }
+        }
+    }
+    false
 }
 
 fn other(rng: &mut Rng, not: &[u8]) -> u8 {
@@ -284,24 +308,6 @@ impl LoWorkload {
             // inserted next to the same base, a tandem copy) is inside the domain, so (k-1)-mers
             // shared between samples need not carry the same label here.
             if !in_domain(&seqs, &labels, m, false) {
-                continue;
-            }
-            // "repeat-free": no microsatellite (period 2..4, three or more copies) within k of an
-            // indel in any sample - there one event has several bubbles and descriptions
-            let micro = |seq: &[u8], lo: usize, hi: usize| -> bool {
-                let hi = hi.min(seq.len());
-                for p in 2..=4usize {
-                    let mut i = lo;
-                    while i + 3 * p <= hi {
-                        if seq[i..i + p] == seq[i + p..i + 2 * p] && seq[i..i + p] == seq[i + 2 * p..i + 3 * p] && seq[i..i + p].iter().any(|b| *b != seq[i]) {
-                            return true;
-                        }
-                        i += 1;
-                    }
-                }
-                false
-            };
-            if indels.iter().any(|d| seqs.iter().any(|s| micro(s, d.pos.saturating_sub(k + 12), d.pos + k + 12))) {
                 continue;
             }
             let samples: Vec<Sample> = seqs.into_iter().enumerate().map(|(i, s)| Sample { name: format!("g{i}"), records: vec![("c".into(), if rng.chance(30) { revcomp(&s) } else { s })], wrap: 0 }).collect();
@@ -712,7 +718,17 @@ impl Workload for LoWorkload {
                         break;
                     }
                     if let Some((key, cnt)) = matched.iter().find(|(k, c)| **c > planted_keys[*k]) {
-                        viol = Some(("lo:indel-reported-twice".into(), format!("{ctxs}: {} planted indel(s) splitting the samples as {:?} / rest are reported by {cnt} records", planted_keys[key], key)));
+                        // context of the planted indel(s) concerned: ancestor window, before and after the event
+                        let lowc = c.indels.iter().filter(|d| part(&d.carriers.iter().copied().collect()) == *key).any(|d| {
+                            let a = c.ancestor.as_bytes();
+                            let (lo, hi) = (d.pos.saturating_sub(c.k + 14), d.pos + c.k + 14);
+                            let mut derived = a[..d.pos].to_vec();
+                            derived.extend(d.ins.bytes());
+                            derived.extend(&a[(d.pos + d.del).min(a.len())..]);
+                            low_complexity(a, lo, hi) || low_complexity(&derived, lo, hi + d.ins.len())
+                        });
+                        let ctx_tag = if lowc { "low-complexity-context" } else { "plain-context" };
+                        viol = Some((format!("lo:indel-reported-twice[{ctx_tag}]"), format!("{ctxs}: {} planted indel(s) splitting the samples as {:?} / rest are reported by {cnt} records", planted_keys[key], key)));
                         break;
                     }
                     if vi == 0 {
